@@ -6,6 +6,8 @@ import (
 	"reflect"
 	"regexp"
 	"strings"
+	"sync"
+	"sync/atomic"
 
 	stackage "github.com/JesseCoretta/go-stackage"
 )
@@ -31,6 +33,62 @@ type c11Recv struct {
 	Mk   func() any
 }
 
+// spyLeaf is a Stringer element that, while it is being rendered, records the raw state of the
+// structure it sits in: a query that changes something temporarily and restores it afterwards is
+// invisible to a before/after comparison but not to a value observed in the middle of the call.
+type spyLeaf struct {
+	name string
+	id   int64 // key into spyStates (kept out of the value so that dumps of the structure stay small)
+}
+
+type spyState struct {
+	root stackage.Stack
+	log  []string
+}
+
+var (
+	spyOn     atomic.Bool
+	spyStates sync.Map // id -> *spyState
+	spySeq    atomic.Int64
+)
+
+func (s spyLeaf) String() string {
+	if spyOn.Load() {
+		if st, ok := spyStates.Load(s.id); ok {
+			sp := st.(*spyState)
+			sp.log = append(sp.log, stackage.VerifDump(sp.root).Key(true))
+		}
+	}
+	return s.name
+}
+
+var spyLogs sync.Map // root address -> *spyState
+
+func spyReceiver(kind string, mode int) any {
+	id := spySeq.Add(1)
+	st := &spyState{}
+	spy := func(n string) spyLeaf { return spyLeaf{n, id} }
+	root := newStackKind(kind)
+	st.root = root
+	root.Push(spy("s0"),
+		stackage.Not().SetLeadOnce(true).Push(spy("s1"), "n"),
+		stackage.Not().SetFold(true).SetMutex().Push(spy("s2")),
+		stackage.And().SetLeadOnce(true).SetParen(true).SetMutex().Push("a", spy("s3")),
+		stackage.List().SetDelimiter(",").SetEncap(`"`).Push(spy("s4"), "l"),
+		stackage.Cond("k", stackage.Eq, stackage.Or().SetFold(true).SetNoPadding(true).Push(spy("s5"), "o")),
+		stackage.Cond("ks", stackage.Ne, spy("s6")),
+	)
+	if mode&1 != 0 {
+		root.SetMutex()
+	}
+	if mode&2 != 0 {
+		root.SetReadOnly(true)
+	}
+	spyStates.Store(id, st)
+	spyLogs.Store(stackage.VerifDump(root).Addr, st)
+	return root
+}
+
 func c11Receivers(quick bool) []c11Recv {
 	var out []c11Recv
 	vp := func(...any) error { return nil }
@@ -43,6 +101,15 @@ func c11Receivers(quick bool) []c11Recv {
 				StackAlias(stackage.And().Push("al")), stackage.Cond("k2", stackage.Ge, 5)}
 		},
 	}
+	contents = append(contents, func() []any {
+		pa := StackAlias(stackage.And().Push("p", "q"))
+		return []any{
+			stackage.Cond("ca", stackage.Eq, StackAlias(stackage.And().Push("p", nil, "q"))), stackage.Cond("cp", stackage.Eq, &pa),
+			stackage.Not().SetLeadOnce(true).SetMutex().Push("x", "y"), stackage.Not().SetFold(true).SetLeadOnce(true).Push("z"),
+			CondAlias(stackage.Cond("cc", stackage.Lt, StackAliasS(stackage.List().Push("u")))), stackage.Or().SetMutex().SetParen(true).SetNoNesting(true).Push("m", stackage.And().SetMutex().Push("deep")),
+			&pa,
+		}
+	})
 	for _, k := range kindNames {
 		k := k
 		for ci, content := range contents {
@@ -74,6 +141,12 @@ func c11Receivers(quick bool) []c11Recv {
 					}})
 				}
 			}
+		}
+	}
+	for _, k := range []string{"AND", "LIST", "NOT"} {
+		for mode := 0; mode < 4; mode++ {
+			k, mode := k, mode
+			out = append(out, c11Recv{fmt.Sprintf("%s/spy/mode%d", k, mode), func() any { return spyReceiver(k, mode) }})
 		}
 	}
 	for mode := 0; mode < 2; mode++ {
@@ -122,7 +195,7 @@ func c11Calls(x any) []c11Call {
 		if !c11IsQuery(me.Name) {
 			continue
 		}
-		for _, t := range argTuples(me.Type, pick, 60) {
+		for _, t := range append(argTuples(me.Type, pick, 60), extraTuples(me.Name)...) {
 			out = append(out, c11Call{me.Name, t.Desc, t.Args})
 		}
 	}
@@ -260,6 +333,16 @@ func c11Pure(c *Ctx, rv c11Recv, count bool) {
 		if p != "" {
 			c.Violation("panic:"+cl.Method, desc+" panicked: "+p, c11Case{rv.Name, cl.Method, cl.Args}, len(desc))
 			continue
+		}
+		if lp, ok := spyLogs.Load(stackage.VerifDump(x).Addr); ok {
+			st := lp.(*spyState)
+			for _, seen := range st.log {
+				if seen != before {
+					c.Violation("query-modifies-temporarily:"+cl.Method, fmt.Sprintf("%s: in the middle of the call the structure read\n %s\n instead of\n %s", desc, seen, before), c11Case{rv.Name, cl.Method, cl.Args}, len(desc))
+					break
+				}
+			}
+			st.log = st.log[:0]
 		}
 		if after := dumpKey(x); after != before {
 			c.Violation("query-modifies:"+cl.Method, fmt.Sprintf("%s changed the receiver or a nested instance:\n before %s\n after  %s", desc, before, after), c11Case{rv.Name, cl.Method, cl.Args}, len(desc))
@@ -410,6 +493,7 @@ func init() {
 			built[i] = rv.Mk()
 		}
 		stackage.VerifHook = func(ev string, stackID, mutexID uintptr) { panic(lockTaken{ev}) }
+		spyOn.Store(true)
 		parallelFor(len(recvs), func(i int) {
 			x := built[i]
 			rv := c11Recv{recvs[i].Name, func() any { return x }}
@@ -417,6 +501,7 @@ func init() {
 			c.States.Add(1)
 		})
 		stackage.VerifHook = nil
+		spyOn.Store(false)
 		nq := 0
 		names := map[string]bool{}
 		for _, cl := range c11Calls(stackage.And()) {
